@@ -13,7 +13,7 @@ DESIGN = {"quick": [("OPFKnn.n3.cfg", 2), ("OPFKnn.n3k2.cfg", 2), ("OPFKnn.live.
 def design(rep, tier, table=DESIGN, module="OPFKnn"):
     from concurrent.futures import ThreadPoolExecutor
     with ThreadPoolExecutor(max_workers=2) as ex:
-        futs = [(c, ex.submit(H.run_tlc, module, c, workers=w, timeout=3000, heap="6g", tag="d-" + c)) for c, w in table[tier]]
+        futs = [(c, ex.submit(H.run_tlc, module, c, workers=w, timeout=3000, heap="6g", coverage=True, ignore_actions=(("AddPlateau",) if ("pred" in c or "n3k2" in c) else ()), tag="d-" + c)) for c, w in table[tier]]
         for c, f in futs:
             rep.add_tlc("%s %s" % (module, c), f.result(), kind="design")
 
@@ -38,19 +38,26 @@ def scenarios(rep, tier, seed, pid_salt=13, nq=0):
         if not K.materialise(scn):
             continue
         scns.append(scn)
+    # C (spec -> code) at the level of one clustering pass: initial states of the design model OPFKnn (densities on a
+    # half-integer grid, so that densities within 1 of each other but not equal occur) installed through the public
+    # node attributes; the near-tie structure this reaches is practically unreachable through real data
+    nd = 12000 if thorough else 2500
+    for _ in range(nd):
+        scns.append(K.direct_scenario(rng))
+    rep.cov["direct_clustering_scenarios"] = nd
     return scns
 
 
 def run_items(rep, scns, pids, tag):
     items = []
     for scn in scns:
-        rec, why = K.run_scenario(scn)
+        rec, why = K.run_direct(scn) if scn.get("direct") else K.run_scenario(scn)
         if rec is None:
             K.handle_skip(rep, scn, why, pids)
             continue
         items.append((scn, rec))
     if items:
-        s0, r0 = next(((s, r) for s, r in items if s["mode"] == "metric"), items[0])
+        s0, r0 = next(((s, r) for s, r in items if s.get("mode") == "metric"), items[0])
         t0 = r0["trace"]
         rep.sample({"scenario": {k: (v if k not in ("Z", "D") else "...") for k, v in s0.items()}, "k": t0["k"], "dens": t0["dens"], "adj": t0["adj"], "fin": t0["fin"], "first_events": t0["ev"][:2], "queries": t0["q"][:2]}, limit=3)
         out = K.judge(rep, items, tag, pids)
